@@ -952,3 +952,49 @@ def rule_await_pure(mod, rep):
         bad.append((f.entry(), "no wait loop"))
     rep.check(not bad, "AWAIT-PURE", "await#exits", "returns only after *status == 0",
               "await() %s (%s): the wait is no longer a pure wait on the owner's release" % (bad[0][1] if bad else "", bad[0][0].loc if bad else ""), bad[0][0].loc if bad else f.file, f.name)
+
+
+# ---------------------------------------------------------------------------------------------------------------------------------
+# PRINCIPAL-WALK (C10): COLAMD's order_children climbs to the principal ancestor
+# ---------------------------------------------------------------------------------------------------------------------------------
+def rule_principal_walk(mod, rep):
+    rep.rule("PRINCIPAL-WALK", "colamd.c order_children(): the loop that climbs parent = Col[parent].shared1.parent stops at the first DEAD_PRINCIPAL (-1) column and continues "
+             "through dead non-principal (-2) ones - the exit test on Col[parent].start, evaluated at -2 and -1", floor=1)
+    f = mod.funcs.get("order_children")
+    if f is None or not f.blocks:
+        rep.brk("ANALYSIS-BROKEN PRINCIPAL-WALK: order_children not found")
+        return
+    rep.scope([f.name])
+    n = 0
+    for h, body in f.loops():
+        if any(x.op in ("store", "call") and not (x.callee or "").startswith("llvm.") for b in body for x in f.blocks[b].insts if x.op != "call" or x.callee):
+            continue
+        for b in sorted(body):
+            t = f.blocks[b].insts[-1]
+            if t.op != "br" or not t.ops or t.ops[0][0] != "v" or all(x in body for x in t.tgt):
+                continue
+            C = f.inst[t.ops[0][1]]
+            neg = False
+            while C.op == "xor":
+                nx = [z for z in C.ops if z[0] == "v"]
+                if not nx:
+                    break
+                C = f.inst[nx[0][1]]; neg = not neg
+            if C.op != "icmp" or C.pred not in _PRED:
+                continue
+            ops = [strip_casts(f, o) for o in C.ops]
+            for k in (0, 1):
+                if ops[1 - k][0] == "c" and ops[k][0] == "v" and f.inst[ops[k][1]].op == "load" and \
+                        any(any(seg[0] == "f" and seg[2] == "start" for seg in p) for p in f.addr_paths(f.inst[ops[k][1]])):
+                    K = ops[1 - k][1]
+                    def stay(v):
+                        tv = _PRED[C.pred](v, K) if k == 0 else _PRED[C.pred](K, v)
+                        tv = tv != neg
+                        return (t.tgt[0] in body) if tv else (t.tgt[1] in body)
+                    n += 1
+                    ok = stay(-2) and not stay(-1)
+                    rep.check(ok, "PRINCIPAL-WALK", "order_children#climb@%s" % C.ln, "continues at DEAD_NON_PRINCIPAL, stops at DEAD_PRINCIPAL",
+                              "the climb to the principal ancestor %s: columns absorbed through a chain of non-principal parents are ordered under the wrong column and the "
+                              "permutation is no longer a bijection" % ("stops at a dead non-principal column" if not stay(-2) else "does not stop at the principal column"), C.loc, f.name)
+    if n == 0:
+        rep.brk("ANALYSIS-BROKEN PRINCIPAL-WALK: the climbing loop of order_children was not found")
